@@ -126,7 +126,7 @@ func c05Case(unit string, T uint16, phase int64, interf string) (string, *TimedC
 		t1 := tb + Tn + 3*sec
 		tc.Steps = append(tc.Steps, TStep{At: t1, Client: 2, Cmd: w1},
 			TStep{At: t1 + 50*sec, Client: 0, Cmd: U(3, 1, 1)}, // by now the second waiter sits in the long-wait table
-			TStep{At: t1 + 52*sec, Client: 2, Cmd: w2})        // enters the long-wait table before the second one's deadline passes
+			TStep{At: t1 + 52*sec, Client: 2, Cmd: w2})         // enters the long-wait table before the second one's deadline passes
 		tc.Expect = []Expect{to, {Req: 21, Kind: "granted", Lo: 0, Hi: Tn}, {Req: 22, Kind: "timeout", Lo: Tn, Hi: hi}}
 		tc.Horizon = t1 + 52*sec + Tn + 6*sec
 	case "many-same-deadline":
